@@ -1,4 +1,202 @@
-/- Driver for C15 (stub: not built yet). -/
+/-
+Driver for C15 (panel container conversions).  Import-free (Model + Parse only).
+
+Line protocol (tokens after the property id):
+
+  path <rep> <hop>*         -> results of every hop, separated by " > " (stops at the first error)
+  pred <rep N>              -> "isn=<T|F> acn=<T,F,..>"
+  chk <rep|O> <uni> <minInst> <minCols> <toNumpy> <toPandas>   -> rep or error
+
+Encodings (no spaces inside a token):
+  name      s.<codepoint>.<codepoint>…   (python str; "s" = empty string)   |   i.<int>  (python int)
+  names     name,name,…   "-" = empty list   "none" = None
+  values    rationals n/d, comma separated, "-" = empty
+  A:n,c,t:<flat values>                      3-D array
+  T:<labels|np>:<row;row;…>                  2-D table (np = numpy array, labels = names)
+  N:<names>:<col|col|…>   col = cell;cell;…  cell = S<values> | R<values> | P<value>
+  M:<inst>:<time>:<names>:<row;…>            row = i,t,v1,…,vc
+  L:<inst>:<time>:<dim>:<row;…>              row = i,t,name,v
+  hops: n3  3n:<names>:<S|R>  3m:<inst>:<time>:<names>  m3:<inst>:<time>  nm:<inst>:<time>
+        mn:<inst>:<S|R>  nl:<inst>:<time>:<dim>  ln:<inst>:<time>:<dim>:<names>  n2:<np|pd>  32
+        2n:<names>:<S|R>          (optional strings: "none" = None)
+-/
+import SkVerif.Model.Panel
+import SkVerif.Drv.Parse
 namespace SkVerif.Drv.C15
-def handle (_toks : List String) : String := "bad-op"
+open SkVerif SkVerif.Panel SkVerif.Drv
+
+abbrev V := Rat
+
+def showErr : Err → String
+  | .value => "E:value" | .type => "E:type" | .key => "E:key" | .assert => "E:assert"
+  | .unmodelled => "E:unmodelled"
+
+/-! parsing -/
+
+def parseName? (s : String) : Option Name :=
+  match s.splitOn "." with
+  | "i" :: [v] => (parseInt? v).map Name.i
+  | "s" :: cps => do
+      let ns ← cps.mapM parseNat?
+      pure (Name.s (String.ofList (ns.map Char.ofNat)))
+  | _ => none
+
+def parseNames? (s : String) : Option (List Name) :=
+  if s == "-" then some [] else (s.splitOn ",").mapM parseName?
+
+def parseONames? (s : String) : Option (Option (List Name)) :=
+  if s == "none" then some none else (parseNames? s).map some
+
+def parseOStr (s : String) : Option String := if s == "none" then none else some s
+
+def parseVals? (s : String) : Option (List V) := parseRatList? s
+
+def parseKind? (s : String) : Option Bool :=
+  if s == "S" then some false else if s == "R" then some true else none
+
+def parseCell? (s : String) : Option (Cell V) :=
+  match s.toList with
+  | 'S' :: rest => (parseVals? (String.ofList rest)).map Cell.ser
+  | 'R' :: rest => (parseVals? (String.ofList rest)).map Cell.arr
+  | 'P' :: rest => (parseRat? (String.ofList rest)).map Cell.prim
+  | _ => none
+
+def splitList (sep : String) (s : String) : List String := if s == "-" then [] else s.splitOn sep
+
+def parseIntRow? (s : String) : Option ((Int × Int) × List V) :=
+  match s.splitOn "," with
+  | i :: t :: vs => do
+      let i ← parseInt? i; let t ← parseInt? t
+      let vs ← vs.mapM parseRat?
+      pure ((i, t), vs)
+  | _ => none
+
+def parseLongRow? (s : String) : Option (Int × Int × Name × V) :=
+  match s.splitOn "," with
+  | [i, t, nm, v] => do
+      let i ← parseInt? i; let t ← parseInt? t
+      let nm ← parseName? nm; let v ← parseRat? v
+      pure (i, t, nm, v)
+  | _ => none
+
+def parseRep? (s : String) : Option (Rep Name V) :=
+  match s.splitOn ":" with
+  | ["A", shape, vals] => do
+      let sh ← parseNatList? shape
+      let vs ← parseVals? vals
+      match sh with
+      | [n, c, t] =>
+        if vs.length = n * c * t ∧ 0 < n ∧ 0 < c then pure (Rep.arr3 (reshape3 n c t vs)) else none
+      | _ => none
+  | ["T", labels, rows] => do
+      let rs ← (splitList ";" rows).mapM parseVals?
+      if labels == "np" then pure (Rep.tab2 ⟨none, rs⟩)
+      else do
+        let ls ← parseNames? labels
+        pure (Rep.tab2 ⟨some (ls.map Name.sh), rs⟩)
+  | ["N", names, cols] => do
+      let ns ← parseNames? names
+      let cs ← (splitList "|" cols).mapM (fun c => (splitList ";" c).mapM parseCell?)
+      if ns.length = cs.length ∧ allEq (cs.map List.length) then pure (Rep.nested ⟨ns.zip cs⟩) else none
+  | ["M", inst, time, names, rows] => do
+      let ns ← parseNames? names
+      let rs ← (splitList ";" rows).mapM parseIntRow?
+      if rs.all (fun r => r.2.length == ns.length) then pure (Rep.mi ⟨inst, time, ns, rs⟩) else none
+  | ["L", inst, time, dim, rows] => do
+      let rs ← (splitList ";" rows).mapM parseLongRow?
+      pure (Rep.long ⟨inst, time, dim, rs⟩)
+  | _ => none
+
+def parseHop? (s : String) : Option (Hop Name) :=
+  match s.splitOn ":" with
+  | ["n3"] => some .n3
+  | ["3n", names, k] => do pure (.a3n (← parseONames? names) (← parseKind? k))
+  | ["3m", i, t, names] => do pure (.a3m (parseOStr i) (parseOStr t) (← parseONames? names))
+  | ["m3", i, t] => some (.m3 (parseOStr i) (parseOStr t))
+  | ["nm", i, t] => some (.nm (parseOStr i) (parseOStr t))
+  | ["mn", i, k] => do pure (.mn (parseOStr i) (← parseKind? k))
+  | ["nl", i, t, d] => some (.nl (parseOStr i) (parseOStr t) (parseOStr d))
+  | ["ln", i, t, d, names] => do pure (.ln i t d (← parseONames? names))
+  | ["n2", m] => if m == "np" then some (.n2 true) else if m == "pd" then some (.n2 false) else none
+  | ["32"] => some .a32
+  | ["2n", names, k] => do pure (.t2n (← parseONames? names) (← parseKind? k))
+  | _ => none
+
+/-! printing -/
+
+def showName : Name → String
+  | .i v => s!"i.{v}"
+  | .s v => ".".intercalate ("s" :: v.toList.map (fun c => toString c.toNat))
+
+def showList (sep : String) (l : List String) : String := if l.isEmpty then "-" else sep.intercalate l
+def showNames (l : List Name) : String := showList "," (l.map showName)
+def showVals (l : List V) : String := showRatList l
+
+def showCell : Cell V → String
+  | .ser v => "S" ++ showVals v
+  | .arr v => "R" ++ showVals v
+  | .prim v => "P" ++ showRat v
+
+def showRep : Rep Name V → String
+  | .arr3 X => s!"A:{nInst X},{nCols X},{nTime X}:{showVals X.flatten.flatten}"
+  | .tab2 T =>
+    let labels := match T.names with
+      | none => "np"
+      | some ls => showNames (ls.map Name.s)
+    s!"T:{labels}:{showList ";" (T.rows.map showVals)}"
+  | .nested N =>
+    s!"N:{showNames N.names}:{showList "|" (N.cols.map (fun p => showList ";" (p.2.map showCell)))}"
+  | .mi M =>
+    s!"M:{M.inst}:{M.time}:{showNames M.names}:{showList ";" (M.rows.map (fun r =>
+      ",".intercalate (toString r.1.1 :: toString r.1.2 :: r.2.map showRat)))}"
+  | .long L =>
+    s!"L:{L.inst}:{L.time}:{L.dim}:{showList ";" (L.rows.map (fun r =>
+      ",".intercalate [toString r.1, toString r.2.1, showName r.2.2.1, showRat r.2.2.2]))}"
+
+/-- 2-D numpy arrays given to the functions that expect 3-D arrays (code as it is):
+`n, c, t = X.shape` fails with ValueError, `from_3d_numpy_to_multi_index` checks `ndim` (TypeError),
+`reshape(n, -1)` of a 2-D array is the array itself. -/
+def applyHop' (h : Hop Name) (r : Rep Name V) : Except Err (Rep Name V) :=
+  match h, r with
+  | .a3n _ _, .tab2 ⟨none, _⟩ => throw Err.value
+  | .a3m _ _ _, .tab2 ⟨none, _⟩ => throw Err.type
+  | .a32, .tab2 ⟨none, rows⟩ => pure (.tab2 ⟨none, rows⟩)
+  | h, r => applyHop nameOps reservedName h r
+
+def runPath : List (Hop Name) → Rep Name V → List String
+  | [], _ => []
+  | h :: hs, r =>
+    match applyHop' h r with
+    | .error e => [showErr e]
+    | .ok r' => showRep r' :: runPath hs r'
+
+def showBoolList (l : List Bool) : String := showList "," (l.map showBool)
+
+def handle (toks : List String) : String :=
+  match toks with
+  | "path" :: rep :: hops =>
+    match parseRep? rep, hops.mapM parseHop? with
+    | some r, some hs => showList " > " (runPath hs r)
+    | _, _ => "bad-op"
+  | ["pred", rep] =>
+    match parseRep? rep with
+    | some (.nested N) => s!"isn={showBool (isNestedDataframe N)} acn={showBoolList (areColumnsNested N)}"
+    | _ => "bad-op"
+  | ["chk", rep, uni, mi, mc, tn, tp] =>
+    let xin : Option (XIn Name V) :=
+      if rep == "O" then some .other else
+      match parseRep? rep with
+      | some (.arr3 X) => some (.arr3 X)
+      | some (.tab2 ⟨none, _⟩) => some .arrOther
+      | some (.nested N) => some (.frame N)
+      | _ => none
+    match xin, parseBool? uni, parseNat? mi, parseNat? mc, parseBool? tn, parseBool? tp with
+    | some x, some uni, some mi, some mc, some tn, some tp =>
+      match checkX nameOps x uni mi mc tn tp with
+      | .error e => showErr e
+      | .ok (.arr3 X) => showRep (.arr3 X)
+      | .ok (.frame N) => showRep (.nested N)
+    | _, _, _, _, _, _ => "bad-op"
+  | _ => "bad-op"
+
 end SkVerif.Drv.C15
